@@ -1,22 +1,78 @@
-(* C05 — A* and breadth-first search return valid minimum-cost / minimum-step paths *)
+(* C05 — A* and breadth-first search return valid minimum-cost / minimum-step paths.
+   Graph g: states 0..g_n-1, g_succ s = [(action, next state, cost)], g_goal = is_absorbing.
+   walk g s p u: p is a list of real transitions leading from s to u; verts = the states visited;
+   map e_act p = the actions taken; cost p = the sum of the costs.
+   ord k = order in which the k-th expansion enumerates the transitions (any permutation),
+   tbs k = tie-break value of the k-th push (any values: lifo, fifo, random draws),
+   h = heuristic cost (msdm's heuristic_value negated), consistent. *)
 From Coq Require Import List ZArith Bool.
-From MSDM Require Import model.Search theory.SearchTheory.
+From MSDM Require Import model.Search theory.SearchTheory theory.SearchInv theory.SearchBFS theory.SearchAStar.
 Local Open Scope Z_scope.
 
-(* the reference distance is the least cost over all paths to any goal; None iff no goal is reachable *)
-Theorem c05_bf_dist_correct : forall g s,
+(* reference distance = least cost over all paths to any goal; None iff no goal reachable *)
+Theorem bf_dist_correct : forall g s,
   wf_graph g -> (s < g_n g)%nat -> least_cost g s (bf_dist g s).
-Proof. exact bf_dist_correct. Qed.
-Print Assumptions c05_bf_dist_correct.
+Proof. exact SearchTheory.bf_dist_correct. Qed.
+Print Assumptions bf_dist_correct.
 
-(* a result accepted by the certificate satisfies every clause of the property (A-star) *)
-Theorem c05_path_cert_sound : forall g start r,
+(* certificate run on msdm's A-star result: accepted => every clause of the property holds *)
+Theorem path_cert_sound : forall g start r,
   wf_graph g -> (start < g_n g)%nat -> path_cert g start r = true -> valid_plan g start r.
-Proof. exact path_cert_sound. Qed.
-Print Assumptions c05_path_cert_sound.
+Proof. exact SearchTheory.path_cert_sound. Qed.
+Print Assumptions path_cert_sound.
 
-(* ... (breadth-first search: minimum number of steps) *)
-Theorem c05_bfs_cert_sound : forall g start r,
+(* certificate run on msdm's BFS result: accepted => real path to a goal with the fewest steps / no goal reachable *)
+Theorem bfs_cert_sound : forall g start r,
   wf_graph g -> (start < g_n g)%nat -> bfs_cert g start r = true -> valid_bfs_plan g start r.
-Proof. exact bfs_cert_sound. Qed.
-Print Assumptions c05_bfs_cert_sound.
+Proof. exact SearchTheory.bfs_cert_sound. Qed.
+Print Assumptions bfs_cert_sound.
+
+(* BFS loop: returned path starts at start, follows real transitions under the returned actions,
+   ends at a goal, and no path to any goal has fewer steps *)
+Theorem bfs_sound_shortest : forall g start ord path acts v vis,
+  wf_graph g -> (start < g_n g)%nat -> ord_perm ord ->
+  bfs g start ord = Found path acts v vis ->
+  exists p u, walk g start p u /\ g_goal g u = true /\ verts start p = path /\ map e_act p = acts /\
+              (forall p' u', walk g start p' u' -> g_goal g u' = true -> (length p <= length p')%nat).
+Proof. exact SearchBFS.bfs_sound_shortest. Qed.
+Print Assumptions bfs_sound_shortest.
+
+(* BFS loop: "no plan" exactly when no goal is reachable; fuel n+2 always suffices *)
+Theorem bfs_complete : forall g start ord,
+  wf_graph g -> (start < g_n g)%nat -> ord_perm ord ->
+  ((exists vis, bfs g start ord = NoPlan vis) <-> no_goal_reachable g start) /\
+  bfs g start ord <> OutOfFuel /\ bfs g start ord <> Broken.
+Proof. exact SearchBFS.bfs_complete_total. Qed.
+Print Assumptions bfs_complete.
+
+(* A-star loop: returned path is real, path_value is its total cost, and that cost is least *)
+Theorem astar_sound_optimal : forall g start ord h tbs path acts v vis,
+  wf_graph g -> (start < g_n g)%nat -> consistent g h -> ord_ok ord ->
+  astar g start ord h tbs = Found path acts v vis ->
+  exists p u, walk g start p u /\ g_goal g u = true /\ verts start p = path /\ map e_act p = acts /\
+              cost p = v /\
+              (forall p' u', walk g start p' u' -> g_goal g u' = true -> v <= cost p').
+Proof. exact SearchAStar.astar_sound_optimal_found. Qed.
+Print Assumptions astar_sound_optimal.
+
+(* A-star loop: "no plan" exactly when no goal is reachable; fuel 2 + #transitions always suffices *)
+Theorem astar_complete : forall g start ord h tbs,
+  wf_graph g -> (start < g_n g)%nat -> consistent g h -> ord_ok ord ->
+  ((exists vis, astar g start ord h tbs = NoPlan vis) <->
+   (forall p u, walk g start p u -> g_goal g u = false)) /\
+  astar g start ord h tbs <> OutOfFuel /\ astar g start ord h tbs <> Broken.
+Proof. exact SearchAStar.astar_complete_total. Qed.
+Print Assumptions astar_complete.
+
+(* from_mdp reads the single outcome of every representation except the dict-keys one ... *)
+Theorem from_mdp_repr_partial : forall d,
+  (forall x, d <> DDict x) -> from_mdp_read d = Some (dist_outcome d).
+Proof. exact SearchTheory.from_mdp_repr_partial. Qed.
+Print Assumptions from_mdp_repr_partial.
+
+(* ... the full clause "however the distributions are represented" fails on the model of today's code *)
+Theorem from_mdp_repr_refuted : exists d, from_mdp_read d <> Some (dist_outcome d).
+Proof. exact SearchTheory.from_mdp_repr_refuted. Qed.
+Print Assumptions from_mdp_repr_refuted.
+
+(* non-vacuity witnesses: SearchTheory.ex_wf / ex_bf / ex_cert, SearchBFS.bfs_example, SearchAStar.astar_example *)
